@@ -113,11 +113,15 @@ def writers_of(crate, field):
 def check_writer_set(rep, rid, crate, field, allowed, cfg):
     """allowed: dict short-name-regex -> reason"""
     ws = writers_of(crate, field)
+    helper_writers = set()
     for name, kinds in sorted(ws.items()):
         ok = [pat for pat in allowed if re.search(pat, name)]
         rep.inst(rid, '%s:%s:%s' % (cfg, field, short(name)), detail=dict(writer=name, kinds=sorted(kinds)))
         if not ok and kinds == {'construct'} and is_private_helper_of(crate, crate.fns[name], allowed):
             continue       # a private construction helper of audited constructors: its field values are checked through its callers (M-C14c)
+        if not ok and private_self_helper(crate, name) is not None and is_private_helper_of(crate, crate.fns[name], allowed):
+            helper_writers.add(name)
+            continue       # a private `&mut self` helper of audited writers: its stores are attributed to them (frame conditions, M-C14a)
         if not ok:
             fn = crate.fns[name]
             rep.viol(rid, '%s:writer:%s' % (field, short(name)),
@@ -125,7 +129,15 @@ def check_writer_set(rep, rid, crate, field, allowed, cfg):
                      loc(fn))
     for pat in allowed:
         if not any(re.search(pat, n) for n in ws):
-            rep.anchor(rid, 'writer %s of %s [%s]' % (pat, field, cfg), False)
+            # the audited writer may now write through a private helper
+            via = False
+            for n, f in crate.fns.items():
+                if re.search(pat, n) and any(short(f.callee_name(t)) in {short(h) for h in helper_writers} for _b, t in f.calls()):
+                    via = True
+            if not via:
+                rep.anchor(rid, 'writer %s of %s [%s]' % (pat, field, cfg), False)
+            else:
+                rep.inst(rid, '%s:%s:%s (through a private helper)' % (cfg, field, pat))
 
 
 # --------------------------------------------------------------------------------------------
@@ -444,10 +456,11 @@ FRAME = {
 }
 
 
-def self_effects(fn):
+def self_effects(fn, _depth=0):
     """(stores: list of (field, value description, line), escapes: list of (what, callee))  for methods with a self pointer in _1"""
     stores = []
     escapes = []
+    crate = getattr(fn, 'crate', None)
     for bi, si, st in fn.stmts():
         if bi not in fn.live_blocks():
             continue
@@ -465,8 +478,30 @@ def self_effects(fn):
                     p = op_place(a)
                     if p and p['local'] == l:
                         recv.append(fn.callee_name(t))
-            escapes.append(('.'.join(fields_of(rhs['place'])) or '*self', recv or ['?']))
+            what = '.'.join(fields_of(rhs['place'])) or '*self'
+            helpers = [private_self_helper(crate, r) for r in recv] if (crate is not None and what == '*self' and recv and _depth < 2) else []
+            if helpers and all(h is not None for h in helpers):
+                # a private method that works on the same `self`: its effects are the caller's effects
+                for h in helpers:
+                    hs, he = self_effects(h, _depth + 1)
+                    stores += [(f, v, st['line']) for f, v, _l in hs]
+                    escapes += he
+                continue
+            escapes.append((what, recv or ['?']))
     return stores, escapes
+
+
+def private_self_helper(crate, name):
+    """a non-public inherent method of Lexer (e.g. `fn begin_token(&mut self)`), or None"""
+    g = crate.fns.get(name)
+    if g is None:
+        for k, f in crate.fns.items():
+            if short(k) == short(name):
+                g = f
+                break
+    if g is None or g.vis == 'Public' or g.kind not in ('AssocFn', 'Fn') or not re.match(r'^lexer::Lexer(::<.*>)?::\w+$', g.name):
+        return None
+    return g
 
 
 def rule_frames(rep, crate, cfg):
@@ -497,6 +532,10 @@ def rule_frames(rep, crate, cfg):
                 rep.viol(rid, 'frame:%s:no-lex' % short(fn.name), '%s does not call Logos::lex' % fn.name, loc(fn))
             for bi, t in calls:
                 sb = [b for b, _s, st in stores_to_field(fn, 'token_start')]
+                for hb, ht in fn.calls():
+                    h = private_self_helper(crate, fn.callee_name(ht))
+                    if h is not None and stores_to_field(h, 'token_start'):
+                        sb.append(hb)
                 if not any(fn.dominates_block(b, bi) for b in sb):
                     rep.viol(rid, 'frame:%s:order' % short(fn.name), 'token_start := token_end does not dominate the call of Logos::lex', loc(fn, t['line']))
                 if desc(fn, t['args'][0]) not in ('param1', 'self'):
@@ -808,6 +847,60 @@ def is_size_const(op):
     return op.get('op') == 'const' and 'Chunk::SIZE' in (op.get('cdbg') or '')
 
 
+def bounds_helper_roles(crate, h):
+    """If the private function h(..) returns exactly `a.checked_add(b)` is Some(end) and end <= len` for three of its
+    parameters: dict(len=i, a=j, b=k) (1-based parameter numbers); None otherwise."""
+    if h.kind not in ('Fn', 'AssocFn') or h.argc != 3 or h.locals[0] != 'bool':
+        return None
+    adds = [(b, t) for b, t in h.calls() if re.search(r'::checked_add$', h.callee_name(t))]
+    others = [h.callee_name(t) for _b, t in h.calls() if not re.search(r'::checked_add$|Option::<T>::is_some_and$', h.callee_name(t))]
+    if len(adds) != 1 or others:
+        return None
+    ab, at = adds[0]
+    pa, pb = desc(h, at['args'][0]), desc(h, at['args'][1])
+    if not (re.fullmatch(r'param[123]', pa) and re.fullmatch(r'param[123]', pb)) or pa == pb:
+        return None
+    rest = ({'param1', 'param2', 'param3'} - {pa, pb}).pop()
+    from mirlib import variant_edges
+    ok = False
+    rr = ret_root(h)
+    if rr and rr[0] == 'call' and re.search(r'Option::<T>::is_some_and$', h.callee_name(rr[2])) and trace(h, rr[2]['args'][0])[0] == 'call':
+        clo = trace(h, rr[2]['args'][1])
+        cf = crate.fns.get(clo[2]['rhs']['kind'].get('closure', '')) if clo[0] == 'agg' else None
+        cap = [desc(h, o) for o in clo[2]['rhs']['ops']] if clo[0] == 'agg' else []
+        if cf is not None and cap == [rest]:
+            r2 = ret_root(cf)
+            if r2 and r2[0] == 'bin':
+                rhs = r2[2]['rhs']
+                da, db = desc(cf, rhs['a']), desc(cf, rhs['b'])
+                ok = (rhs['bop'] == 'Le' and da == 'param2' and db == 'param1.0') or (rhs['bop'] == 'Ge' and db == 'param2' and da == 'param1.0')
+    else:
+        some_edges = variant_edges(h, at['dest']['local'], 1)
+        none_edges = variant_edges(h, at['dest']['local'], 0)
+        good = True
+        seen_cmp = False
+        for kind, bi, si, x in h.defs().get(0, []):
+            if bi not in h.live_blocks() or kind != 'stmt':
+                good = False
+                continue
+            rhs = x['rhs']
+            if rhs['rv'] == 'use' and const_int(rhs['a']) == 0:
+                continue                      # `false` may be returned anywhere
+            if rhs['rv'] == 'bin' and any(h.edge_dominates(e, bi) for e in some_edges):
+                pa_, pb_ = trace(h, rhs['a']), trace(h, rhs['b'])
+
+                def payload(x_):
+                    return x_[0] == 'place' and x_[1]['local'] == at['dest']['local'] and any(p_['k'] == 'downcast' and p_.get('variant') == 'Some' for p_ in x_[1]['proj'])
+                if (rhs['bop'] == 'Le' and payload(pa_) and desc(h, rhs['b']) == rest) or (rhs['bop'] == 'Ge' and payload(pb_) and desc(h, rhs['a']) == rest):
+                    seen_cmp = True
+                    continue
+            good = False
+        ok = good and seen_cmp
+    if not ok:
+        return None
+    return dict(len=int(rest[-1]), a=int(pa[-1]), b=int(pb[-1]))
+
+
 def rule_read_bounds(rep, crate, cfg):
     rid = rep.rule('M-C05b', 'Source::read (default build): the raw pointer read is dominated by the true edge of offset.checked_add(Chunk::SIZE).is_some_and(|end| end <= self.len()) for the same offset and receiver; Some is returned exactly on that edge, None on the other', floor=2)
     for ty in ('str', r'\[u8\]'):
@@ -875,6 +968,24 @@ def rule_read_bounds(rep, crate, cfg):
                     okc = (rhs['bop'] == 'Le' and is_payload(pa) and is_len(pb)) or (rhs['bop'] == 'Ge' and is_len(pa) and is_payload(pb))
                     if okc and any(fn.edge_dominates(e, sb) for e in some_edges):
                         guards.append(c)
+        if not guards:
+            # idiom 3: the test is a private helper `h(len, offset, size)` that returns checked_add(offset, size) <= len
+            for sb in switches(fn):
+                c = cond_of_switch(fn, sb)
+                if not c or c['root'][0] != 'call':
+                    continue
+                t = c['root'][2]
+                h = crate.fns.get(fn.callee_name(t))
+                roles = bounds_helper_roles(crate, h) if h is not None else None
+                if roles is None or len(t['args']) != h.argc:
+                    continue
+                a_len, a_off, a_size = (t['args'][roles[k] - 1] for k in ('len', 'a', 'b'))
+                dl = desc(fn, a_len)
+                len_ok = re.fullmatch(r'call:(core::str::<impl str>::len|core::slice::<impl \[T\]>::len|source::Source::len)\((param1|self)\)|PtrMetadata\((param1|self)\)', dl) is not None
+                pair = [(desc(fn, a_off), a_off), (desc(fn, a_size), a_size)]
+                off_ok = (pair[0][0] == 'param2' and is_size_const(pair[1][1])) or (pair[1][0] == 'param2' and is_size_const(pair[0][1]))
+                if len_ok and off_ok:
+                    guards.append(c)
         if not guards:
             rep.viol(rid, '%s::read:no-guard' % tyn, '<%s as Source>::read has no `offset.checked_add(Chunk::SIZE).is_some_and(|end| end <= self.len())` guard' % tyn, where)
             continue
@@ -1016,6 +1127,12 @@ def result_aggs(fn, edge=None):
 def closure_result(crate, fn, op):
     """(variant, payload kind) built by the closure passed as `op`, or by a plain aggregate operand"""
     r = trace(fn, op)
+    if r[0] == 'const' and r[1].get('fn'):
+        # a tuple-variant constructor used as a function: `CallbackResult::Emit` maps the value as it is
+        m = re.search(r'internal::(CallbackResult|SkipResult)(?:::<.*>)?::(\w+)$', r[1]['fn'])
+        if m:
+            return (m.group(2), 'id')
+        return ('?fn:' + r[1]['fn'], None)
     if r[0] == 'agg':
         kd = r[2]['rhs']['kind']
         if 'closure' in kd:
@@ -1249,6 +1366,10 @@ def rule_next_resumes(rep, crate, cfg):
         rep.viol(rid, 'next:lex', 'Lexer::next does not call Logos::lex exactly once', loc(fn))
     for bi, t in calls:
         sb = [b for b, _s, st in stores_to_field(fn, 'token_start')]
+        for hb, ht in fn.calls():
+            h = private_self_helper(crate, fn.callee_name(ht))
+            if h is not None and stores_to_field(h, 'token_start'):
+                sb.append(hb)
         if not any(fn.dominates_block(b, bi) for b in sb):
             rep.viol(rid, 'next:order', 'the store does not dominate the call of Logos::lex', loc(fn))
     d = ret_desc(fn)
